@@ -325,6 +325,9 @@ def _stream7(tier):
     for text, skip, els in (("", 0, ["a"]), ("", 1, ["a"]), ("a..b", 2, ["", "c"]), (".", 1, ["x"]), ("ab", 1, ["", ""]),
                             ("x" * 300 + ".b", 1, ["c"]), ("a." + "y" * 300, 1, ["z" * 256, "q"])):
         lines.append("g extend 2e %s %d %s" % (hx(text), skip, fmt(els)))
+    # a built path (own buffer) is set anew from a text
+    for els, text in ((["a"], "x.y"), (["ab", "", "c"], ""), (["q" * 300], "a..b"), (["a", "b"], "zz")):
+        lines.append("g reuse 2e %s %s" % (fmt(els), hx(text)))
     for l1 in (254, 255, 256):
         for mode in ("s", "b"):
             lines.append("g rebuild %s 2e %s,%s,%s 1 %s" % (mode, hx("x" * l1), hx("ab"), hx("c"), hx("y" * (l1 - 1))))
